@@ -591,6 +591,8 @@ pub fn play(rec: &mut GameRecord, mut policy: Policy, opts: &PlayOpts, rng: &mut
         rec.rep_first = rng.chance(1, 4);
     }
     REP_FIRST.with(|c| c.set(rec.rep_first));
+    // in every other decoyed game the decoys step only after the monitored state, never before it
+    set_decoy_post_only(rec.decoyed && rec.index % 2 == 1);
     if rec.decoyed {
         sink.count("games_played_with_lookalike_decoys");
     }
